@@ -95,6 +95,7 @@ func (p *defaultPolicy[V]) Push(keys []uint64) bool {
 func (p *defaultPolicy[V]) Add(key uint64, cost int64) ([]*Item[V], bool) {
 	p.Lock()
 	defer p.Unlock()
+	verifPoint(vpPolAddEnter, key, uint64(cost))
 
 	// Cannot add an item bigger than entire cache.
 	if cost > p.evict.getMaxCost() {
@@ -143,6 +144,7 @@ func (p *defaultPolicy[V]) Add(key uint64, cost int64) ([]*Item[V], bool) {
 			}
 		}
 
+		verifSample(key, incHits, sample, minKey, minHits)
 		// If the incoming item isn't worth keeping in the policy, reject.
 		if incHits < minHits {
 			p.metrics.add(rejectSets, key, 1)
